@@ -26,7 +26,7 @@ def header(path):
             h[k.strip()] = v.strip()
     return h
 
-def run_one(kind, prop, patch, keep=False, build=True):
+def run_one(kind, prop, patch, keep=False, build=True, check=None):
     t0 = time.time()
     h = header(patch)
     scratch = tempfile.mkdtemp(prefix='dirkmut.', dir=os.environ.get('SCRATCH', '/tmp'))
@@ -51,7 +51,7 @@ def run_one(kind, prop, patch, keep=False, build=True):
                 return res
         ev = os.path.join(scratch, 'ev')
         os.makedirs(ev)
-        props = h.get('check', 'all' if kind == 'variants' else prop)
+        props = check or h.get('check', 'all' if kind == 'variants' else prop)
         c = subprocess.run([BIN, '-property', props, '-repo', tree, '-out', ev, '-known', '/dev/null', '-tier', 'quick'], env=ENV, capture_output=True, text=True)
         violated = []
         kinds = set()
@@ -104,12 +104,13 @@ def main():
             continue
         for d in sorted(glob.glob(os.path.join(VERIF, kind, '*'))):
             prop = os.path.basename(d)
-            if props and prop not in props:
+            if props and prop not in props and not (kind == 'variants' and prop == 'indep'):
                 continue
             for patch in sorted(glob.glob(os.path.join(d, '*.patch'))):
                 if a.name and not any(n in os.path.basename(patch) for n in a.name.split(',')):
                     continue
-                jobs.append((kind, prop, patch))
+                # independent refactorings are replayed for whichever properties were asked for
+                jobs.append((kind, prop, patch, ','.join(props) if (props and prop == 'indep') else None))
     if a.kind in ('seeded', 'all'):
         for d in sorted(glob.glob(os.path.join(VERIF, 'seeded', '*'))):
             prop = os.path.basename(d)
@@ -117,10 +118,10 @@ def main():
                 continue
             patch = os.path.join(d, 'patch.diff')
             if os.path.exists(patch):
-                jobs.append(('mutants', prop, patch))
+                jobs.append(('mutants', prop, patch, None))
     results = []
     with concurrent.futures.ThreadPoolExecutor(max_workers=a.j) as ex:
-        futs = [ex.submit(run_one, k, p, f, a.keep) for (k, p, f) in jobs]
+        futs = [ex.submit(run_one, k, p, f, a.keep, True, chk) for (k, p, f, chk) in jobs]
         for f in futs:
             r = f.result()
             results.append(r)
